@@ -21,6 +21,7 @@ common.setup_env()
 strax = common.import_strax()
 from vf.checks.meta import META  # noqa: E402
 from vf.harness import gen, oracle, run as hrun  # noqa: E402
+from vf.sched import coop, shims  # noqa: E402
 from vf.mon import chunklaws as cl, storagemd  # noqa: E402
 
 PROPERTY = "C16"
@@ -38,7 +39,8 @@ ASSUMPTIONS = [
     "pinned tree and outside the property's quantifier)",
 ]
 REQUIRED = {"copies": 60, "rechunker_runs": 60, "rechunk_on_load_runs": 40, "per_chunk_merges": 30,
-            "metadata_checks": 100, "source_intact_checks": 100, "rows_compared": 1000, "dry_loads": 100}
+            "metadata_checks": 100, "source_intact_checks": 100, "rows_compared": 1000, "dry_loads": 100,
+            "scheduled_rechunker_runs": 100, "scheduling_points": 10000}
 UNIT_TIMEOUT = 1500
 COMP = ("blosc", "zstd", "lz4", "bz2")
 
@@ -181,13 +183,37 @@ def run_case(case):
                 add("source-modified", "copy_to_frontend changed the source frontend")
         elif op["name"] == "rechunker":
             os.makedirs(d2, exist_ok=True)
+            kw = dict(source_directory=src_dir, dest_directory=None if op["replace"] else d2,
+                      replace=op["replace"], compressor=op["compressor"],
+                      target_size_mb=(op["target_rows"] * 24 + 12) / 1e6 if op["target_rows"] else None,
+                      rechunk=op["rechunk"], max_workers=op.get("workers", 2), _timeout=120)
             try:
                 with common.quiet():
-                    strax.rechunker(source_directory=src_dir, dest_directory=None if op["replace"] else d2,
-                                    replace=op["replace"], compressor=op["compressor"],
-                                    target_size_mb=(op["target_rows"] * 24 + 12) / 1e6 if op["target_rows"] else None,
-                                    rechunk=op["rechunk"], parallel=op["parallel"], max_workers=2, _timeout=120)
+                    if op["parallel"] == "sched":
+                        # thread mode with the pool workers, the mailbox threads and the saver scheduled
+                        # adversarially (cooperative scheduler, seeded)
+                        import strax.storage.file_rechunker as fr
+
+                        chooser = coop.RandomChooser(op["sseed"]) if op["sseed"] % 3 else coop.PCTChooser(op["sseed"], depth=3, horizon=200)
+                        sched = coop.Sched(chooser=chooser, max_steps=100000)
+                        old_tpe = fr.ThreadPoolExecutor
+                        fr.ThreadPoolExecutor = coop.Executor
+                        try:
+                            with shims.coop_pipeline(sched):
+                                sched.register_main()
+                                strax.rechunker(parallel="thread", **kw)
+                        finally:
+                            fr.ThreadPoolExecutor = old_tpe
+                        cnt["scheduled_rechunker_runs"] = 1
+                        cnt["scheduling_points"] = sched.steps
+                        if sched.clock > 0:
+                            add("virtual-timeout", f"the scheduled rechunker needed a timeout to make progress (clock {sched.clock})")
+                    else:
+                        strax.rechunker(parallel=op["parallel"], **kw)
                 cnt["rechunker_runs"] = 1
+            except coop.Deadlock as e:
+                add("deadlock", f"scheduled rechunker deadlocked: {e}"[:400])
+                return viol, cnt
             except Exception as e:  # noqa: BLE001
                 add("exception", f"rechunker failed: {e!r}", e)
                 return viol, cnt
@@ -273,6 +299,10 @@ def gen_cases(seed, lo, hi, tier):
             chosen = parts if not q else rng.sample(parts, min(2, len(parts)))
             for g in chosen:
                 ops.append({"name": "per_chunk", "groups": g, "rechunk": rng.random() < 0.5})
+        for k in range(4 if q else 8):
+            ops.append({"name": "rechunker", "compressor": rng.choice(COMP + (None,)), "rechunk": rng.random() < 0.5,
+                        "target_rows": rng.choice([None, 1, 3, 100]), "replace": rng.random() < 0.4,
+                        "parallel": "sched", "workers": rng.choice([1, 2, 2, 3, 3]), "sseed": rng.randint(0, 10 ** 6)})
         for op in ops:
             yield {"layout": lay, "op": op}
 
